@@ -51,6 +51,8 @@ BlockChecks(e, BB, UU) ==
         G == env.g
         T == [tip |-> e.st.tip, tiph |-> e.st.tiph, utxo |-> ObsUtxo(e.st)]
         adopted == e.res = "AddedLc" /\ T.tip = lab
+        \* a block that was wound onto the chain before the node aborted has been accepted as well
+        wound_then_panic == IsPanic(e.res) /\ T.tip = lab /\ obs.tip # lab
         newpath == PathTo(BB, lab)
         oldpath == PathTo(BB, obs.tip)
         wound == SelectSeq(newpath, LAMBDA x : x \notin Rng(oldpath))
@@ -58,10 +60,10 @@ BlockChecks(e, BB, UU) ==
         pre(x) == IF BB[x].parent = "" THEN {} ELSE UU[BB[x].parent]
         viol(x) == BlockViolations(pre(x), BB[x].txs, BB[x].h, G)
         atrv(x) == AtrViolations(pre(x), BB[x].txs, BB[x].h, G)
-        c01 == IF adopted /\ rooted
+        c01 == IF (adopted \/ wound_then_panic) /\ rooted
                THEN UNION {{Bad(e, PropOf(v), v \o " in " \o x) : v \in viol(x)} : x \in Rng(wound)}
                ELSE {}
-        c13 == IF adopted /\ rooted
+        c13 == IF (adopted \/ wound_then_panic) /\ rooted
                THEN UNION {{Bad(e, "C13", v \o " in " \o x) : v \in atrv(x)} : x \in Rng(wound)}
                ELSE {}
         c13b == IF adopted /\ rooted /\ \E x \in T.utxo : x.kind # KBound /\ x.bh + G < T.tiph
@@ -82,12 +84,14 @@ BlockChecks(e, BB, UU) ==
                      THEN {Bad(e, "C07", "own-block-rejected-by-replica")} ELSE {})
                \cup (IF honest /\ e.res # "AddedLc"
                      THEN {Bad(e, "C07", "honest-block-rejected")} ELSE {})
+        c13r == IF honest /\ e.res # "AddedLc" /\ e.h > G + 1 /\ Leaving(pre(lab), e.h, G) # {}
+                THEN {Bad(e, "C13", "honest-block-that-rebroadcasts-rejected")} ELSE {}
         c06 == IF e.x.bedit \in {"drop_last_tx", "dup_first_tx", "swap_txs", "tamper_tx_data",
                                  "zero_root_drop_tx", "resign_other_key", "bump_timestamp_nosign"}
                   /\ adopted
                THEN {Bad(e, "C06", "edited-block-accepted:" \o e.x.bedit)} ELSE {}
         pan == IF IsPanic(e.res) THEN {Bad(e, "C04", "panic")} ELSE {}
-    IN c01 \cup c13 \cup c03 \cup c02 \cup c04 \cup c07 \cup c06 \cup pan
+    IN c01 \cup c13 \cup c13r \cup c03 \cup c02 \cup c04 \cup c07 \cup c06 \cup pan
 
 (* ---- pool (C14) and wallet (C19) checks on any observed state --------------------- *)
 PoolChecks(e, st, P, u, tiph) ==
